@@ -83,8 +83,11 @@ class Ctx:
         key = (config, s.nstarts)
         if getattr(self, "_alt_key", None) != key:
             try:
-                sc = s.call("ctx_create", 1); slot = int(sc.t[0])
-                s.call("ctx_set_compress", 1, ctx=slot); s.call("ctx_randomize", hashlib.sha256(b"alt" + str(self.seed).encode()).digest(), ctx=slot)
+                sc = s.call("ctx_create", 1); slot0 = int(sc.t[0])
+                s.call("ctx_set_compress", 1, ctx=slot0); s.call("ctx_randomize", hashlib.sha256(b"alt" + str(self.seed).encode()).digest(), ctx=slot0)
+                # ... and the mirror runs on a CLONE of that context (malloc or preallocated, by shard parity): a clone computes what its source does
+                cl = s.call("ctx_clone" if self.shard % 2 == 0 else "ctx_prealloc_clone", ctx=slot0); slot = int(cl.t[0])
+                if slot < 0: slot = slot0
             except (ShimCrash, ValueError, IndexError): return
             self._alt_key = key; self._alt_slot = slot
         try: r2 = s.call(op, *args, ctx=self._alt_slot)
